@@ -84,6 +84,65 @@ def dflt_pred(fields):
     return " && ".join(cl) if cl else "true"
 
 
+APPENDER_SHIMS = """// Vec::extend(iter) (trusted, R-collect): appends the items in order
+#[verifier::external_body]
+fn vextend<T>(v: &mut Vec<T>, items: Vec<T>) ensures final(v)@ == old(v)@ + items@ { unimplemented!() }
+// R-collect (trusted): `v.into_iter().collect()` / `.map(|c| c.into())` into the same type is the list itself, in order
+#[verifier::external_body]
+fn vcollect<T>(v: Vec<T>) -> (r: Vec<T>) ensures r@ == v@ { unimplemented!() }
+// u64 -> Value (macro-generated From, checked by the Kani harnesses / unit value): some value of the number
+#[verifier::external_body]
+fn vvalue_u64(x: u64) -> (r: Value) { unimplemented!() }
+"""
+
+
+def select_appenders(u, fl, PB, generic=False):
+    """the APPENDERS every other builder method of a SELECT funnels through (C08: items in call order; C01: nothing given is lost): each
+    appends to exactly one list (or sets one field) and leaves every other field alone (frame over the GENERATED field list).
+    Emitted inside an open `impl SelectStatement {` (also used by unit builders, whose wrappers call them)."""
+    allf = [n for n, _ in fl]
+    S = "src/query/select.rs"
+
+    def frame(changed):
+        return ", ".join("final(self).%s == old(self).%s" % (n, n) for n in allf if n != changed)
+    r_inh = make_r_sub("R-inherent", r"^(\s*)pub fn", r"\1fn", flags=re.M, min_count=0)
+    if generic:
+        # unit builders: generic in the contracted conversion interface VInto<SelectExpr> (a conversion is a function of its argument)
+        r_vinto = make_r_sub("R-into", r"\bInto<SelectExpr>", "VInto<SelectExpr>")
+        u.fn(S, "impl SelectStatement", "expr", props=PB, key="SelectStatement::expr", vpath="SelectStatement::expr", rules=[r_retself, r_vinto],
+             spec="ensures final(self).selects@ == old(self).selects@.push(expr.sp_into()), %s," % frame("selects"))
+        u.fn(S, "impl SelectStatement", "exprs", props=PB, key="SelectStatement::exprs", vpath="SelectStatement::exprs",
+             rules=[r_retself, r_vinto, make_r_sub("R-collect", r"exprs<T, I>\(&mut self, exprs: I\)", "exprs<T>(&mut self, exprs: Vec<T>)"), make_r_sub("R-collect", r"\s+I: IntoIterator<Item = T>,", ""),
+                    make_r_sub("R-collect", r"exprs\.into_iter\(\)\.map\(\|c\| c\.into\(\)\)\.collect\(\)", "vmap_into(exprs)")],
+             spec="ensures final(self).selects@ == old(self).selects@ + exprs@.map_values(|e: T| e.sp_into()), %s," % frame("selects"))
+    else:
+        u.fn(S, "impl SelectStatement", "expr", props=PB, key="SelectStatement::expr", vpath="SelectStatement::expr",
+             rules=[r_retself, make_r_sub("R-into", r"expr<T>\(&mut self, expr: T\)", "expr(&mut self, expr: SelectExpr)"), make_r_sub("R-into", r"where\s+T: Into<SelectExpr>,", ""), make_r_sub("R-into", r"expr\.into\(\)", "expr")],
+             spec="ensures final(self).selects@ == old(self).selects@.push(expr), %s," % frame("selects"))
+        u.fn(S, "impl SelectStatement", "exprs", props=PB, key="SelectStatement::exprs", vpath="SelectStatement::exprs",
+             rules=[r_retself, make_r_sub("R-collect", r"exprs<T, I>\(&mut self, exprs: I\)", "exprs(&mut self, exprs: Vec<SelectExpr>)"), make_r_sub("R-collect", r"where\s+T: Into<SelectExpr>,\s+I: IntoIterator<Item = T>,", ""),
+                    make_r_sub("R-collect", r"exprs\.into_iter\(\)\.map\(\|c\| c\.into\(\)\)\.collect\(\)", "vcollect(exprs)")],
+             spec="ensures final(self).selects@ == old(self).selects@ + exprs@, %s," % frame("selects"))
+    u.fn(S, "impl SelectStatement", "from_from", props=PB, key="SelectStatement::from_from", vpath="SelectStatement::from_from", rules=[r_retself],
+         spec="ensures final(self).from@ == old(self).from@.push(select), %s," % frame("from"))
+    u.fn(S, "impl SelectStatement", "add_group_by", props=PB, key="SelectStatement::add_group_by", vpath="SelectStatement::add_group_by",
+         rules=[r_retself, make_r_sub("R-collect", r"add_group_by<I>\(&mut self, expr: I\)", "add_group_by(&mut self, expr: Vec<SimpleExpr>)"), make_r_sub("R-collect", r"where\s+I: IntoIterator<Item = SimpleExpr>,", ""),
+                make_r_sub("R-collect", r"expr\.into_iter\(\)\.collect\(\)", "vcollect(expr)")],
+         spec="ensures final(self).groups@ == old(self).groups@ + expr@, %s," % frame("groups"))
+    u.fn(S, "impl OrderedStatement for SelectStatement", "add_order_by", props=PB, key="SelectStatement::add_order_by", vpath="SelectStatement::add_order_by", rules=[r_retself, r_inh],
+         spec="ensures final(self).orders@ == old(self).orders@.push(order), %s," % frame("orders"))
+    u.fn(S, "impl SelectStatement", "union", props=PB, key="SelectStatement::union", vpath="SelectStatement::union", rules=[r_retself],
+         spec="ensures final(self).unions@ == old(self).unions@.push((union_type, query)), %s," % frame("unions"))
+    u.fn(S, "impl SelectStatement", "unions", props=PB, key="SelectStatement::unions", vpath="SelectStatement::unions",
+         rules=[r_retself, make_r_sub("R-collect", r"unions<T: IntoIterator<Item = \(UnionType, SelectStatement\)>>\(\s*&mut self,\s*unions: T,\s*\)", "unions(&mut self, unions: Vec<(UnionType, SelectStatement)>)"),
+                make_r_sub("R-collect", r"self\.unions\.extend\(unions\);", "vextend(&mut self.unions, unions);")],
+         spec="ensures final(self).unions@ == old(self).unions@ + unions@, %s," % frame("unions"))
+    for nm in ["limit", "offset"]:
+        u.fn(S, "impl SelectStatement", nm, props=PB, key="SelectStatement::" + nm, vpath="SelectStatement::" + nm,
+             rules=[r_retself, make_r_sub("R-into", r"Some\(%s\.into\(\)\)" % nm, "Some(vvalue_u64(%s))" % nm)],
+             spec="ensures final(self).%s is Some, %s," % (nm, frame(nm)))
+
+
 def build(u):
     u.emit("use vstd::prelude::*;\nverus! {\n")
     structs, texts = {}, {}
@@ -153,52 +212,11 @@ def build(u):
              key="%s::clear_order_by" % name, vpath="%s::clear_order_by" % name,
              spec="ensures\n    // removes exactly that clause\n    final(self).%s@.len() == 0,\n    // and nothing else\n    %s," % (fld, ", ".join("final(self).%s == old(self).%s" % (n, n) for n in allf if n != fld)))
         u.emit("}\n")
-    # ---- the APPENDERS every other builder method of a SELECT funnels through (C08: items in call order; C01: nothing given is lost): each
-    # appends to exactly one list (or sets one field) and leaves every other field alone (frame over the GENERATED field list)
+    # ---- the APPENDERS every other builder method of a SELECT funnels through (see select_appenders)
     PB = ["C08", "C01"]
-    fl = structs["SelectStatement"]
-    allf = [n for n, _ in fl]
-    S = "src/query/select.rs"
-
-    def frame(changed):
-        return ", ".join("final(self).%s == old(self).%s" % (n, n) for n in allf if n != changed)
-    u.spec("""// Vec::extend(iter) (trusted, R-collect): appends the items in order
-#[verifier::external_body]
-fn vextend<T>(v: &mut Vec<T>, items: Vec<T>) ensures final(v)@ == old(v)@ + items@ { unimplemented!() }
-// R-collect (trusted): `v.into_iter().collect()` / `.map(|c| c.into())` into the same type is the list itself, in order
-#[verifier::external_body]
-fn vcollect<T>(v: Vec<T>) -> (r: Vec<T>) ensures r@ == v@ { unimplemented!() }
-// u64 -> Value (macro-generated From, checked by the Kani harnesses / unit value): some value of the number
-#[verifier::external_body]
-fn vvalue_u64(x: u64) -> (r: Value) { unimplemented!() }
-""", "take::appender-shims", props=PB)
+    u.spec(APPENDER_SHIMS, "take::appender-shims", props=PB)
     u.emit("impl SelectStatement {\n")
-    r_inh = make_r_sub("R-inherent", r"^(\s*)pub fn", r"\1fn", flags=re.M, min_count=0)
-    u.fn(S, "impl SelectStatement", "expr", props=PB, key="SelectStatement::expr", vpath="SelectStatement::expr",
-         rules=[r_retself, make_r_sub("R-into", r"expr<T>\(&mut self, expr: T\)", "expr(&mut self, expr: SelectExpr)"), make_r_sub("R-into", r"where\s+T: Into<SelectExpr>,", ""), make_r_sub("R-into", r"expr\.into\(\)", "expr")],
-         spec="ensures final(self).selects@ == old(self).selects@.push(expr), %s," % frame("selects"))
-    u.fn(S, "impl SelectStatement", "exprs", props=PB, key="SelectStatement::exprs", vpath="SelectStatement::exprs",
-         rules=[r_retself, make_r_sub("R-collect", r"exprs<T, I>\(&mut self, exprs: I\)", "exprs(&mut self, exprs: Vec<SelectExpr>)"), make_r_sub("R-collect", r"where\s+T: Into<SelectExpr>,\s+I: IntoIterator<Item = T>,", ""),
-                make_r_sub("R-collect", r"exprs\.into_iter\(\)\.map\(\|c\| c\.into\(\)\)\.collect\(\)", "vcollect(exprs)")],
-         spec="ensures final(self).selects@ == old(self).selects@ + exprs@, %s," % frame("selects"))
-    u.fn(S, "impl SelectStatement", "from_from", props=PB, key="SelectStatement::from_from", vpath="SelectStatement::from_from", rules=[r_retself],
-         spec="ensures final(self).from@ == old(self).from@.push(select), %s," % frame("from"))
-    u.fn(S, "impl SelectStatement", "add_group_by", props=PB, key="SelectStatement::add_group_by", vpath="SelectStatement::add_group_by",
-         rules=[r_retself, make_r_sub("R-collect", r"add_group_by<I>\(&mut self, expr: I\)", "add_group_by(&mut self, expr: Vec<SimpleExpr>)"), make_r_sub("R-collect", r"where\s+I: IntoIterator<Item = SimpleExpr>,", ""),
-                make_r_sub("R-collect", r"expr\.into_iter\(\)\.collect\(\)", "vcollect(expr)")],
-         spec="ensures final(self).groups@ == old(self).groups@ + expr@, %s," % frame("groups"))
-    u.fn(S, "impl OrderedStatement for SelectStatement", "add_order_by", props=PB, key="SelectStatement::add_order_by", vpath="SelectStatement::add_order_by", rules=[r_retself, r_inh],
-         spec="ensures final(self).orders@ == old(self).orders@.push(order), %s," % frame("orders"))
-    u.fn(S, "impl SelectStatement", "union", props=PB, key="SelectStatement::union", vpath="SelectStatement::union", rules=[r_retself],
-         spec="ensures final(self).unions@ == old(self).unions@.push((union_type, query)), %s," % frame("unions"))
-    u.fn(S, "impl SelectStatement", "unions", props=PB, key="SelectStatement::unions", vpath="SelectStatement::unions",
-         rules=[r_retself, make_r_sub("R-collect", r"unions<T: IntoIterator<Item = \(UnionType, SelectStatement\)>>\(\s*&mut self,\s*unions: T,\s*\)", "unions(&mut self, unions: Vec<(UnionType, SelectStatement)>)"),
-                make_r_sub("R-collect", r"self\.unions\.extend\(unions\);", "vextend(&mut self.unions, unions);")],
-         spec="ensures final(self).unions@ == old(self).unions@ + unions@, %s," % frame("unions"))
-    for nm in ["limit", "offset"]:
-        u.fn(S, "impl SelectStatement", nm, props=PB, key="SelectStatement::" + nm, vpath="SelectStatement::" + nm,
-             rules=[r_retself, make_r_sub("R-into", r"Some\(%s\.into\(\)\)" % nm, "Some(vvalue_u64(%s))" % nm)],
-             spec="ensures final(self).%s is Some, %s," % (nm, frame(nm)))
+    select_appenders(u, structs["SelectStatement"], PB)
     u.emit("}\n")
     u.spec("// #[derive(Default)] on SelectStatement: every field Default (trusted)\n#[verifier::external_body]\nfn vdefault_select() -> (r: SelectStatement) ensures SelectStatement::is_new(r) { unimplemented!() }\n", "take::default", props=P)
     u.emit("} // verus!\nfn main() {}\n")
